@@ -65,6 +65,28 @@ def read_consts():
     return vals, notes
 
 
+def read_inner_abs(notes):
+    """is the extra-pass test of lanczos_tridiag `inner_products.abs() > tol` (repaired) or `inner_products > tol` (pinned)?
+    read with ast; an unrecognised form keeps the repaired one and is listed in notes (the correspondence then decides)"""
+    path = os.path.join(common.REPO, "linear_operator", "utils", "lanczos.py")
+    try:
+        tree = ast.parse(open(path).read())
+        fn = [f for f in ast.walk(tree) if isinstance(f, ast.FunctionDef) and f.name == "lanczos_tridiag"][0]
+        for node in ast.walk(fn):
+            if isinstance(node, ast.Compare) and len(node.ops) == 1 and isinstance(node.ops[0], ast.Gt) \
+                    and getattr(node.comparators[0], "id", None) == "tol":
+                left = node.left
+                if isinstance(left, ast.Name) and left.id == "inner_products":
+                    return False
+                if isinstance(left, ast.Call) and isinstance(left.func, ast.Attribute) and left.func.attr == "abs" \
+                        and getattr(left.func.value, "id", None) == "inner_products" and not left.args:
+                    return True
+    except Exception:  # noqa
+        pass
+    notes.append("the test `inner_products[.abs()] > tol` was not located in lanczos_tridiag; the model uses the .abs() form")
+    return True
+
+
 def regenerate():
     gen = os.path.join(common.COQ, PROP, "gen")
     os.makedirs(gen, exist_ok=True)
@@ -75,14 +97,25 @@ def regenerate():
     if form == "unknown":
         notes.append("Diagonalization.forward adds neither jitter*min(diag T) to every entry nor to the diagonal of T; "
                      "the as-written form (every entry) is kept in the model, the correspondence will report the difference")
-    code = ("(* GENERATED by harness/c09.py from linear_operator/utils/lanczos.py (literals) and by probing\n"
-            "   Diagonalization.forward (form of the tridiagonal jitter) - do not edit *)\n"
+    var = c09_post.probe_variants()
+    var["inner_abs"] = read_inner_abs(notes)
+    vals["variants"] = var
+    code = ("(* GENERATED by harness/c09.py from linear_operator/utils/lanczos.py (literals, form of the extra-pass test) and\n"
+            "   by probing the tree under test (form of the Diagonalization jitter; which of the repaired / pinned versions of\n"
+            "   the first Lanczos step and of the shape bookkeeping of the consumers it contains) - do not edit *)\n"
             "From Coq Require Import PrimFloat.\n"
             "Definition brk_lit : float := %s.\n"
             "Definition n_extra_lit : nat := %d.\n"
             "Definition default_tol_lit : float := %s.\n"
             "Definition diag_jitter_all_entries_lit : bool := %s.\n"
-            % (common.flit(vals["brk"]), vals["n_extra"], common.flit(vals["tol"]), common.coq_bool(form != "diag")))
+            "Definition first_guard_lit : bool := %s.\n"
+            "Definition inner_abs_lit : bool := %s.\n"
+            "Definition root_shape_fixed_lit : bool := %s.\n"
+            "Definition diag_shape_fixed_lit : bool := %s.\n"
+            "Definition post_shape_fixed_lit : bool := %s.\n"
+            % (common.flit(vals["brk"]), vals["n_extra"], common.flit(vals["tol"]), common.coq_bool(form != "diag"),
+               common.coq_bool(var["first_guard"]), common.coq_bool(var["inner_abs"]), common.coq_bool(var["root_shape_fixed"]),
+               common.coq_bool(var["diag_shape_fixed"]), common.coq_bool(var["post_shape_fixed"])))
     p = os.path.join(gen, "Consts.v")
     if not os.path.exists(p) or open(p).read() != code:
         open(p, "w").write(code)
@@ -640,9 +673,12 @@ def run(ctx):
         lcell = "regular"
         if r["ok"] and c["api"] != "to_diag" and r["rec"].lanczos:
             kw, q, t = r["rec"].lanczos[-1]
-            c2 = c09_grid.cell(c["n"], c["fam"], kw["max_iter"], batch=c["batch"],
+            # the budget of the internal Lanczos run is the user's max_root_decomposition_size (NOT what the call happened
+            # to pass on): a run that ends before min(size, n) vectors must be a legitimate early exit
+            c2 = c09_grid.cell(c["n"], c["fam"], c["size"], batch=c["batch"],
                                nvec=(c["nvec"] if c["api"] == "root_inv_multi" else 1), dtype=c["dtype"])
             c2["start"] = "api:" + c["api"]
+            c2["passed_max_iter"] = kw["max_iter"]
             c2["vseed"] = c["vseed"]
             d2 = {"A": d["A"], "init": d.get("init") if c["api"] == "root_inv_multi" else
                   (d["init"][..., :1] if c["api"] == "root_inv_1d" else None), "d": d.get("d", [None])}
@@ -711,6 +747,25 @@ def run(ctx):
         qlits += [(x, c) for x in ql]
     counters["slq_cases"] = len(qlits)
     api_worst["slq"] = slq_worst
+    # call sequences on one operator object (cached decompositions derived from one another)
+    from . import c09_seq as SQ
+    sbase = rng.randrange(1 << 30)
+    for i, c in enumerate(SQ.grid(ctx.quick)):
+        c = dict(c)
+        c["vseed"] = (sbase + 49979687 * i) % (1 << 31)
+        fs, infs = SQ.run(c, SQ.build(c))
+        counters["sequence_cells"] = counters.get("sequence_cells", 0) + 1
+        for e in infs["errors"]:
+            kk = "seq_" + e["call"]
+            api_worst[kk] = max(api_worst.get(kk, 0.0), e["reconstruct"] / ((1e-4 if c["dtype"] == "f64" else 5e-3)
+                                                                            * (infs["cond"] if e["call"] == "I" else 1.0)))
+        if fs:
+            if ctx.violation({"kind": "property-predicate-fails-on-implementation", "cell": c, "failures": fs[:6], "info": infs,
+                              "expected": "diagonalization / root_decomposition / root_inv_decomposition of one operator object "
+                                          "(Lanczos in force, Krylov space = whole space) reproduce A resp. A^-1 in every order of "
+                                          "calls, and results handed out earlier do not change"},
+                             key={"api": "sequence", "fail": fs[0]["fail"], "call": fs[0]["call"]}):
+                n_direct += 1
     glits = []
     for (gb, gn, givs) in P.guard_grid(ctx.quick):
         raised, note = P.run_root_inv_guard(gb, gn, givs)
@@ -775,8 +830,6 @@ def run(ctx):
             c, d, obs, fails, info, ov = results[i]
             if fails:
                 continue            # already reported (or matched a known finding) through the direct predicate
-            if info["cell"] in KNOWN_CELLS:
-                continue            # defective cell whose output happens to satisfy the property (or was repaired)
             n_model_dis += 1
             if n_model_dis <= 5:
                 ctx.violation({"kind": "model-implementation-disagreement", "cell": c, "reason": reasons.get(code, code),
@@ -847,7 +900,7 @@ def run(ctx):
             "comparators coq/C09/Check.v (tolerances: 1e-9 float64, 1e-3 float32, see design_notes/C09.md)",
             "dense float64 oracle (plain torch) for the predicates",
             "exact real arithmetic in the theorems (no rounding-error analysis)"],
-        "evaluations": len(results) + counters["post_cases"] + counters["probe_selections"] + counters["shape_cases"] + counters.get("api_guard_cases", 0) + counters.get("slq_cases", 0),
+        "evaluations": len(results) + counters["post_cases"] + counters["probe_selections"] + counters["shape_cases"] + counters.get("api_guard_cases", 0) + counters.get("slq_cases", 0) + counters.get("sequence_cells", 0),
         "distinct_nontrivial": len(nontrivial),
         "rule": "one evaluation = one call of lanczos_tridiag on a generated (matrix batch, start vectors, budget, dtype, tol) cell "
                 "(directly, through a guard case, or inside root_decomposition / root_inv_decomposition / diagonalization), compared "
@@ -891,6 +944,13 @@ def replay(rp):
             print("expected:", json.dumps(Q.expected(c, d)[0])[:600])
         print("property failures:" if fails else "property holds on this case", json.dumps(fails[:6]))
         return 1 if fails else 0
+    if c.get("api") == "sequence":
+        from . import c09_seq as SQ
+        fails, info = SQ.run(c, SQ.build(c))
+        print("cell:", json.dumps(c))
+        print("info:", json.dumps(info)[:1200])
+        print("property failures:" if fails else "property holds on this case", json.dumps(fails[:6]))
+        return 1 if fails else 0
     if c.get("api") == "root_inv_guard":
         raised, note = P.run_root_inv_guard(c["batch"], c["n"], c["initial_vectors_shape"])
         print("cell:", json.dumps(c), "raised by the argument check:", raised, note)
@@ -901,7 +961,7 @@ def replay(rp):
         lcell = "regular"
         if r["ok"] and c["api"] != "to_diag" and r["rec"].lanczos:
             kw, q, t = r["rec"].lanczos[-1]
-            c2 = c09_grid.cell(c["n"], c["fam"], kw["max_iter"], batch=c["batch"],
+            c2 = c09_grid.cell(c["n"], c["fam"], c["size"], batch=c["batch"],
                                nvec=(c["nvec"] if c["api"] == "root_inv_multi" else 1), dtype=c["dtype"])
             d2 = {"A": d["A"], "init": None, "d": d.get("d", [None])}
             f2, info2 = judge(c2, d2, ("ok", q, t), consts)
